@@ -19,7 +19,7 @@ from safeds_stubgen.api_analyzer import (
     Parameter,
     ParameterAssignment,
     Result,
-    UnionType,
+    TupleType,
     UnknownValue,
     VarianceKind,
     result_name_generator,
@@ -555,10 +555,16 @@ class StubsStringGenerator:
 
         # Create type information
         result_types = [result.type for result in function.results if result.type is not None]
-        result_union = UnionType(types=result_types)
-        types_data = result_union.to_dict()
-        property_type = self._create_type_string(types_data)
+        if len(result_types) == 1:
+            property_type = self._create_type_string(result_types[0].to_dict())
+        elif result_types:
+            # Several results are the elements of a returned tuple, not alternatives
+            property_type = self._create_type_string(TupleType(types=result_types).to_dict())
+        else:
+            property_type = ""
         type_string = f": {property_type}" if property_type else ""
+        if not type_string:
+            self._current_todo_msgs.add("attr without type")
 
         return (
             f"{self._create_todo_msg(indentations)}"
